@@ -309,7 +309,7 @@ fn main() {
             (all.clone(), 3, vec![0, 1, 2], 3, vec![11, 6, 2], vec!['A', 'B']),
             (all17.clone(), 3, vec![0, 1, 2], 3, vec![11, 6], vec!['C']),
             (vec![14, 7, 17, 9, 3, 4], 3, vec![0, 1, 2], 3, vec![10, 6], vec!['E', 'D']),
-            (vec![3, 6, 4, 13, 16], 3, vec![0, 1, 2], 3, vec![11, 6], vec!['G']),
+            (vec![3, 6, 4, 13, 16], 3, vec![0, 1, 2], 3, vec![11], vec!['G']),
             (vec![17, 18, 19, 7, 8, 3], 4, vec![0, 1, 2], 3, vec![7, 8, 9, 10], vec!['A']),
             (vec![14, 15, 16, 9, 13, 11], 5, vec![2], 2, vec![11], vec!['A']),
             (vec![0, 1, 2, 3, 4, 6, 7, 9, 10, 13], 4, vec![1, 2], 2, vec![11], vec!['A', 'B']),
